@@ -974,6 +974,11 @@ def glue_corpus():
     out.append(("comment-with-quote", base.replace("\n", " // it's \"quoted\n", 1), "base"))
     out.append(("comment-with-open", base.replace("\n", " // see /* above\n", 1), "base"))
     out.append(("comment-star-slash", base.replace("\n", " /* a // b */\n", 1), "base"))
+    # a // comment runs to the next \n whatever it contains: other line-end look-alikes inside it do not end it
+    for n, c in (("cr", "\r"), ("ff", "\x0c"), ("vt", "\x0b"), ("nel", "\x85"), ("ls", "\u2028"), ("fs", "\x1c")):
+        out.append(("line-comment-%s-then-code" % n, base.replace("\n", " // note%s salt: \"Z\"\n" % c, 1), "base"))
+        out.append(("line-comment-%s-then-not" % n, base.replace("if uid", "if // check%snot\n uid" % c, 1), "base"))
+    out.append(("block-comment-cr", base.replace("\n", " /* a\rb */\n", 1), "base"))
     # literal contents that a normalising front end would alter
     contents = {"crlf": "a\r\nb".replace("\n", ""), "cr": "a\rb", "vt": "a\x0bb", "ff": "a\x0cb", "fs": "a\x1cb", "nel": "a\x85b",
                 "ls": "a\u2028b", "tab": "a\tb", "2sp": "a  b", "lead": " a", "trail": "a ", "upper": "Ab", "nfd": "cafe\u0301",
@@ -995,7 +1000,8 @@ def glue_corpus():
            "hash-comment": base.replace("\n", " # note\n", 1), "semicolons": base.replace("\n", ";\n"), "zero-width-sep": base.replace("\n", "\u200b"),
            "illegal-at-end": base + " $", "illegal-at-end-2": base + "\n@", "lone-quote-end": base + ' "', "empty": "", "blank": " \n",
            "only-comment": "// nothing", "newline-in-string": base.replace('"S"', '"S\nT"'), "backslash-continuation": base.replace("salt:", "salt:\\\n"),
-           "illegal-after-crlf": base + "\r\n$"}
+           "illegal-after-crlf": base + "\r\n$", "cr-comment-hides-all": "// header\r" + base,
+           "ff-comment-hides-all": "// header\x0c" + base, "ls-comment-hides-all": "// header\u2028" + base}
     for n, t in bad.items():
         out.append(("bad-" + n, t, None))
     return out
